@@ -166,15 +166,17 @@ def _flatten_previous(op, x, testers, context,
     # (if child is terminal)
     # added benefit: shares some history vars among subformulas
     strong = (op == '--X')
+    # only variables know how to create a history variable;
+    # other terminals (constants) get a tester like any expression,
+    # because `--X TRUE` is false and `-X FALSE` is true initially
     propagate = (
-        len(x) == 1)
+        len(x) == 1 and isinstance(x, Nodes.Var))
     if propagate:
         previous += 1
         return x.flatten(testers=testers, context=context,
                          previous=previous, strong=strong, *arg, **kw)
     # create tester here
     assert context == 'bool', context
-    assert len(x) > 1, 'operand is an operator'
     expr = x.flatten(testers=testers, context=context, *arg, **kw)
     # bottom-up counting is safe
     # `len` *must* be called after `flatten`
